@@ -186,11 +186,15 @@ def batched(ctx, n):
         kind = int(rng.integers(0, 3))
         x0 = u(-1.5, 1.5) if kind != 1 else u(0.05, 0.4)
         mk = [lambda v: pq.Beamsplitter(theta=v, phi=0.7).on_modes(0, 1), lambda v: pq.Squeezing(r=v, phi=0.4).on_modes(1), lambda v: pq.Phaseshifter(phi=v).on_modes(0)][kind]
-        desc = {"kind": ["Beamsplitter", "Squeezing", "Phaseshifter"][kind], "x": x0, "case": it}
+        # a fixed active gate with a COMPLEX Fock matrix after the trainable gate: the upstream gradient then flows through the
+        # state-vector argument of `_apply_active_gate_matrix_to_state` (batch and single-state branches)
+        tphi, tmode, tk = u(0.5, 2.6), int(rng.integers(0, 2)), int(rng.integers(0, 3))
+        tail = [[], [lambda: pq.Displacement(r=0.4, phi=tphi).on_modes(tmode)], [lambda: pq.Squeezing(r=0.25, phi=tphi).on_modes(tmode)]][tk]
+        desc = {"kind": ["Beamsplitter", "Squeezing", "Phaseshifter"][kind], "x": x0, "case": it, "tail": ["none", "Displacement", "Squeezing"][tk], "tail_phi": tphi, "tail_mode": tmode}
         ctx.count(("batch", it), nontrivial=True)
 
         def member(i, v, conn):
-            prog = pq.Program(instructions=[type(g)(**g.params).on_modes(*g.modes) if g.modes else type(g)() for g in preps[i]] + [mk(v)])
+            prog = pq.Program(instructions=[type(g)(**g.params).on_modes(*g.modes) if g.modes else type(g)() for g in preps[i]] + [mk(v)] + [t() for t in tail])
             return pq.PureFockSimulator(d=d, config=pq.Config(cutoff=6), connector=conn).execute(prog).state.mean_position(0)
         try:
             with warnings.catch_warnings():
@@ -199,14 +203,14 @@ def batched(ctx, n):
                     conn = pq.TensorflowConnector(decorate_with=tf.function) if compiled else pq.TensorflowConnector()
                     v = tf.Variable(x0, dtype=tf.float64)
                     with tf.GradientTape() as tape:
-                        prog = pq.Program(instructions=[pq.BatchPrepare([pq.Program(instructions=[type(g)(**g.params).on_modes(*g.modes) if g.modes else type(g)() for g in p]) for p in preps]), mk(v)])
+                        prog = pq.Program(instructions=[pq.BatchPrepare([pq.Program(instructions=[type(g)(**g.params).on_modes(*g.modes) if g.modes else type(g)() for g in p]) for p in preps]), mk(v)] + [t() for t in tail])
                         out = pq.PureFockSimulator(d=d, config=pq.Config(cutoff=6), connector=conn).execute(prog).state.mean_position(0)
                     jac = np.asarray(tape.jacobian(out, v))
                     h = 1e-5
                     npc = pq.NumpyConnector()
                     ref = np.array([(float(member(i, x0 + h, npc)) - float(member(i, x0 - h, npc))) / (2 * h) for i in range(2)])
                     if np.abs(jac - ref).max() > 1e-5 * (1 + np.abs(ref).max()):
-                        fails.append((f"batch-gradient:{desc['kind']}", f"batched {'tf.function' if compiled else 'eager'} Jacobian {jac.tolist()} vs finite differences of the members {ref.tolist()}", desc))
+                        fails.append((f"batch-gradient:{desc['kind']}:{desc['tail']}", f"batched {'tf.function' if compiled else 'eager'} Jacobian {jac.tolist()} vs finite differences of the members {ref.tolist()}", desc))
         except Exception as e:
             fails.append((f"batch-raise:{type(e).__name__}", f"{type(e).__name__}: {str(e)[:160]}", desc))
     return fails
